@@ -100,7 +100,7 @@ def to_tsv(triples):
     return "\n".join(lines) + ("\n" if lines else "")
 
 
-def to_simple_turtle(triples, prefixes=None, bare_integers=False):
+def to_simple_turtle(triples, prefixes=None, bare_integers=False, layout=0):
     """House-style Turtle: one statement per line, blanks around every token, full IRIs
     unless a prefix applies (prefix -> namespace dict).  bare_integers: xsd:integer literals are written in Turtle's
     shorthand (-5, +3, 42) - the same literal, another spelling."""
@@ -118,8 +118,11 @@ def to_simple_turtle(triples, prefixes=None, bare_integers=False):
                     if loc and all(c.isalnum() or c == "_" for c in loc):
                         return "%s:%s" % (k, loc)
         return nt_term(t)
+    # layout 0: one statement per line; 1: the final dot on a line of its own; 2: the object (and the dot) on the next line;
+    # 3: every token on a line of its own
+    fmt = ["%s %s %s .", "%s %s %s\n.", "%s %s\n   %s .", "%s\n%s\n%s\n."][layout % 4]
     for s, p, o in triples:
-        lines.append("%s %s %s ." % (q(s), q(("iri", p)), q(o)))
+        lines.append(fmt % (q(s), q(("iri", p)), q(o)))
     return "\n".join(lines) + "\n"
 
 
